@@ -248,7 +248,7 @@ class Function:
         self._inline_member_aliases()
         # ICU renames its entry points with a version suffix (u_fprintf -> u_fprintf_72): normalise
         for b in self.blocks.values():
-            for r in b.roots:
+            for r in list(b.roots) + ([b.term["full"]] if b.term and isinstance(b.term.get("full"), dict) else []):
                 for n in walk(r):
                     if n.get("k") == "call":
                         c = n.get("callee")
